@@ -56,6 +56,8 @@ type KillCase struct {
 	Tasks  []KTask           `json:"tasks"`
 	Init   map[string]string `json:"init"`
 	Steps  []KStep           `json:"steps"`
+	// Cpus: every run of the case is pinned to these CPUs (taskset); "" = all
+	Cpus string `json:"cpus,omitempty"`
 }
 
 var (
@@ -88,6 +90,7 @@ func (c KillCase) source() string {
 
 func genKill(t *rapid.T) KillCase {
 	c := genKillBody(t)
+	c.Cpus = rapid.SampledFrom([]string{"", "", "", "0,1", "0"}).Draw(t, "cpus")
 	c.ProjDir = genProjDir(t)
 	c.Invoke = genInvoke(t)
 	return c
@@ -234,6 +237,7 @@ func execKill(s *ev.Shard, b *sandbox.Box, c KillCase) *rp.Fail {
 	if err := b.ResetFor(c.ProjDir, c.Invoke); err != nil {
 		return &rp.Fail{Sig: "harness", Msg: err.Error()}
 	}
+	b.Cpus = c.Cpus
 	src := c.source()
 	files := map[string]string{"spokfile": src}
 	for f, content := range c.Init {
